@@ -34,7 +34,7 @@ type c20Witness struct {
 func init() {
 	core.Register(&core.Check{
 		ID:   "C20",
-		Rule: "inputs: (a) type confusion: for every JSON position of each seed document (generated documents and the repository's testdata files, large ones sampled) one mutant per replacement in {null, true, 0, \"\", [], {}, {$ref: existing component}, {$ref: other kind}, {$ref: 3}, {$ref: \"#/paths\"}, deep copy of the root}; (b) adversarial reference graphs: dangling, self, mutual cycles through every component kind, wrong kind, references to scalars/arrays/extensions, \"#\", \"#/\", \"#//\", long chains, the same through external files served from an in-memory file system with both settings of the external-reference switch and relative/absolute root locations, and from documents without a location of their own with the switch on (absolute-path, network-path and file references); a reference matrix (36 places inside components where a Reference Object may stand x every component of every kind and pointers into them, through resolved objects and through components that are themselves references, each component reached directly and through an alias that is in progress); schemas that are ill-formed or degenerate meeting boundary values as default / example / enum member (Validate checks those against the schema); self-referring compositions with a default, one process each; (c) byte level: truncation at every 64th offset, PRNG bit flips, duplicated keys; (d) depth: nested schemas/arrays/compositions up to 1500 levels (loading cost grows roughly cubically with depth: finite, so deeper inputs are not judged as hangs); (e) YAML: anchors/aliases incl. expansion bombs, merge keys, non-string keys, tabs, multi-documents. Each input goes through LoadFromData / LoadFromDataWithPath and, when a document comes back, Validate (4 option sets), json.Marshal, yaml.Marshal and InternalizeRefs followed by Marshal. Distinct = input hash; non-trivial = the input got past the JSON/YAML parser into typed unmarshalling (it is a mapping at top level).",
+		Rule: "inputs: (a) type confusion: for every JSON position of each seed document (generated documents and the repository's testdata files, large ones sampled) one mutant per replacement in {null, true, 0, \"\", [], {}, {$ref: existing component}, {$ref: other kind}, {$ref: 3}, {$ref: \"#/paths\"}, deep copy of the root}; (b) adversarial reference graphs: dangling, self, mutual cycles through every component kind, wrong kind, references to scalars/arrays/extensions, \"#\", \"#/\", \"#//\", long chains, the same through external files served from an in-memory file system with both settings of the external-reference switch and relative/absolute root locations, and from documents without a location of their own with the switch on (absolute-path, network-path and file references); a reference matrix (36 places inside components where a Reference Object may stand x every component of every kind and pointers into them, through resolved objects and through components that are themselves references, each component reached directly and through an alias that is in progress); schemas that are ill-formed or degenerate meeting boundary values as default / example / enum member (Validate checks those against the schema); self-referring compositions with a default, one process each; (c) byte level: truncation at every 64th offset, PRNG bit flips, duplicated keys; (d) depth: nested schemas/arrays/compositions up to 1500 levels (loading cost grows roughly cubically with depth: finite, so deeper inputs are not judged as hangs); (e) YAML: anchors/aliases incl. expansion bombs, merge keys, non-string keys, tabs, multi-documents. Each input goes through LoadFromData / LoadFromDataWithPath and, when a document comes back, Validate (4 option sets), json.Marshal, yaml.Marshal and InternalizeRefs followed by Marshal. Distinct = input hash; non-trivial = the input got past the JSON/YAML parser into typed unmarshalling (it is a mapping at top level). Also: fan-in chains of 8 and 40 levels (schemas in the root and in an external file, callbacks), path items reached from inside themselves, YAML inputs and seeds with IncludeOrigin on, and a separate process running 16 concurrent LoadFromFile calls on real files through the default reader (outcome must equal the load alone).",
 		Assumptions: []string{
 			"hang = one input consuming more than 30 CPU-seconds; network access is impossible (reader overridden by an in-memory file system)",
 		},
